@@ -40,6 +40,26 @@ Big == { [kind |-> "nest", n |-> 8], [kind |-> "nest", n |-> 1000], [kind |-> "n
          [kind |-> "line", n |-> 70000], [kind |-> "inline", n |-> 70000], [kind |-> "bulk", n |-> 600000],
          [kind |-> "arrayhdrs", n |-> 200] }
 
+(* ---- runs: one unit repeated n times on one connection without anything in between.  DecodeStack.tla is the   *)
+(* model of what a run does to the decoder's stack: "blank" units (no frame at all), "empty" units (frames      *)
+(* without content, which redis-server skips silently) and "cmd" units (a run of complete frames); the stack    *)
+(* and the heap in use must not depend on n.  The counts are classes: a handful (what a telnet user types), a   *)
+(* thousand (beyond every declared nesting limit), 10^6 and 8*10^6 (beyond every declared length limit; at two  *)
+(* activations per unit the latter exceeds the 1 GB goroutine stack limit of the Go runtime).                   *)
+RunUnit(class, name, unit) == [class |-> class, name |-> name, unit |-> unit]
+BlankUnits == { RunUnit("blank", "crlf", CRLF), RunUnit("blank", "lf", "\n"), RunUnit("blank", "space-crlf", " " \o CRLF) }
+EmptyUnits == { RunUnit("empty", "empty-array", "*0" \o CRLF), RunUnit("empty", "null-array", "*-1" \o CRLF),
+                RunUnit("empty", "null-bulk", "$-1" \o CRLF) }
+CmdUnits   == { RunUnit("cmd", "inline-ping", "PING" \o CRLF) }
+RunCounts(class) == CASE class = "blank" -> {3, 1000, 1000000, 8000000}
+                      [] class = "empty" -> {1000, 1000000}
+                      [] class = "cmd"   -> {100000}
+Run(u, n) == [kind |-> "repeat", n |-> n, class |-> u.class, name |-> u.name, unit |-> u.unit]
+ClientRuns == UNION {{Run(u, n) : n \in RunCounts(u.class)} : u \in BlankUnits \cup EmptyUnits \cup CmdUnits}
+\* a backend that sends surplus complete frames desynchronises its own connection: only a short run of those
+BackendRuns ==    {Run(u, n) : u \in BlankUnits, n \in RunCounts("blank")}
+             \cup {Run(u, 1000) : u \in EmptyUnits}
+
 (* ---- redirection errors a backend may answer to a keyed command *)
 Verbs == {"MOVED", "ASK", "moved", "Ask", "CLUSTERDOWN", "clusterdown"}
 Addrs == {"127.0.0.1:1", "", "x", ":", "host:abc", "256.256.256.256:70000", "127.0.0.1", "[::1]:1"}
@@ -105,11 +125,13 @@ Vec(side, ctx, form, payload) == [side |-> side, ctx |-> ctx, form |-> form, pay
 
 ClientVecs == {Vec("client", "raw", "bytes", g) : g \in Generic} \cup {Vec("client", "raw", "truncated", g) : g \in Truncated}
               \cup {Vec("client", "raw", "big", b) : b \in Big}
+              \cup {Vec("client", "raw", "big", r) : r \in ClientRuns}
 BackendVecs ==
        {Vec("backend", "keyed", "bytes", g) : g \in Generic}
   \cup {Vec("backend", "keyed", "truncated", g) : g \in Truncated}
   \cup {Vec("backend", "cluster-nodes", "truncated", g) : g \in Truncated}
   \cup {Vec("backend", "keyed", "big", b) : b \in Big}
+  \cup {Vec("backend", "keyed", "big", r) : r \in BackendRuns}
   \cup {Vec("backend", "keyed", "error", r) : r \in Redirects}
   \cup {Vec("backend", "cluster-nodes", "bulk", c) : c \in ClusterNodes}
   \cup {Vec("backend", "cluster-nodes", "bytes", g) : g \in Generic}
@@ -130,4 +152,7 @@ Spec == Init /\ [][Next]_i
 \* every parsing context of the proxy is covered by at least one vector of every form it can meet
 Contexts == {"raw", "keyed", "keyed-cps", "cluster-nodes", "scan", "readonly", "asking"}
 AllContextsCovered == \A c \in Contexts : \E v \in AllVecs : v.ctx = c
+\* every class of run unit of DecodeStack.tla is sent by a client and by a backend with a count beyond every declared limit
+RunsCovered == /\ \A cl \in {"blank", "empty", "cmd"} : \E r \in ClientRuns : r.class = cl /\ r.n >= 100000
+               /\ \E r \in BackendRuns : r.class = "blank" /\ r.n >= 1000000
 =============================================================================
